@@ -87,10 +87,16 @@ def build(tier, seed):
                 hs.append(H('blob_padding_a%d' % a, desc='padding blob ends where the next member starts, align %d, any start offset/size <= 4096' % a, sample={'padding_align': a}, may_unsat=('padding starts unaligned',) if a == 1 else ()))
         for a0, ta in itertools.product([1, 2, 4, 8], [1, 2, 4, 8]):
             name = 'unit_after_a%d_t%d' % (a0, ta)
-            gen.append('#[kani::proof] #[kani::unwind(6)] fn %s() { unit_case::<%d, %d>() }' % (name, a0, ta))
-            hs.append(H(name, tier='quick' if (a0, ta) in ((1, 4), (2, 4), (1, 8), (4, 8), (4, 4), (8, 2), (1, 1)) else 'thorough', may_unsat=('bit-field pushed to the next boundary of its type',) if ta <= a0 or ta == 1 else (),
+            gen.append('#[kani::proof] #[kani::unwind(6)] fn %s() { unit_case::<%d, %d, false>() }' % (name, a0, ta))
+            hs.append(H(name, tier='quick' if (a0, ta) in ((1, 4), (2, 4), (1, 8), (4, 8), (4, 4), (8, 2), (1, 1)) else 'thorough', may_unsat=('bit-field run pushed to a later boundary',) if ta <= a0 or ta == 1 else (),
                         desc='struct { M m0 (alignment %d, symbolic size); T f : w (T of size = alignment %d, any width) }: the allocation unit member pushed by the real tail of BitfieldUnit::codegen sits at the byte where C starts the bit-field; struct size agrees' % (a0, ta),
                         sample={'member_align': a0, 'bitfield_type_size': ta, 'width': '1..%d' % (8 * ta)}))
+        for a0, ta in ((1, 1), (1, 4), (4, 1), (2, 8)):
+            name = 'unit_after_packed_a%d_t%d' % (a0, ta)
+            gen.append('#[kani::proof] #[kani::unwind(6)] fn %s() { unit_case::<%d, %d, true>() }' % (name, a0, ta))
+            hs.append(H(name, tier='quick' if (a0, ta) in ((1, 4), (4, 1)) else 'thorough',
+                        desc='the same in an __attribute__((packed)) struct: a zero-width bit-field in front of the run pushes it 0..7 bytes further; the unit member still starts where C starts the run' ,
+                        sample={'member_align': a0, 'bitfield_type_size': ta, 'packed': True, 'gap_bytes': '0..7'}))
         hs.append(H('tracker_never_panics_on_arbitrary_layouts', timeout=1500, weight=3, tier='thorough', desc='StructLayoutTracker call sequence on arbitrary (not C-consistent) layouts: no panic', sample={'sizes': '<= 2^32', 'aligns': '<= 4096 (any, incl. 0 and non powers of two)', 'offsets': '<= 2^35 bits or None'}))
         hs.append(H('layout_for_size_is_largest_pow2_divisor', desc='Layout::for_size_internal', sample='ptr size 4|8, size <= 2^20'))
         hs.append(H('align_to_is_least_multiple', desc='struct_layout::align_to', sample='size <= 2^40, align in {0,1,2,3,8,24,64}'))
